@@ -57,6 +57,7 @@ type FmtTok struct {
 	Format string
 	Arg    *smt.Term
 	Signed bool
+	X      *XF // float argument in the Int back end
 }
 
 func mkStr(s string) Str { return Str{c: s} }
